@@ -118,8 +118,13 @@ func c05StageRun(c *Ctx, idx int, rng *rand.Rand, sc *c05Scenario, dir string) {
 		}
 		return cf.Name
 	}
+	altRename := false // the sender announces another target name for the same version (its rename rule changed)
+	altTarget := func(cf *c05File) string { return "elsewhere/" + filepath.Base(cf.Name) }
 	sendPart := func(cf *c05File, ti int) error {
 		d := descOf(cf, cf.tiles[ti])
+		if altRename {
+			d.Renamed = altTarget(cf)
+		}
 		rs.Stage.Prepare([]sts.Binned{d})
 		err := rs.Stage.Receive(d.partial("src"), &chunkyReader{data: cf.data[d.Beg:d.End], rng: rng, stop: -1})
 		rs.restamp()
@@ -235,7 +240,13 @@ func c05StageRun(c *Ctx, idx int, rng *rand.Rand, sc *c05Scenario, dir string) {
 			held = false
 		}
 		dupAfterComplete = true
-		switch rng.Intn(3) {
+		switch rng.Intn(4) {
+		case 3: // whole file again under another target name (the sender's rename rule changed)
+			altRename = true
+			for ti := range cf.tiles {
+				step(c05Step{Op: "part", File: fi, Part: ti, Note: "resend-whole-renamed-differently"})
+			}
+			altRename = false
 		case 0: // whole file again, blindly
 			for ti := range cf.tiles {
 				step(c05Step{Op: "part", File: fi, Part: ti, Note: "resend-whole"})
@@ -261,7 +272,7 @@ func c05StageRun(c *Ctx, idx int, rng *rand.Rand, sc *c05Scenario, dir string) {
 	for _, cf := range sc.Files {
 		nd := 0
 		for _, d := range allDel {
-			if d.Rel == target(cf) && d.MD5 == cf.hash {
+			if (d.Rel == target(cf) || d.Rel == altTarget(cf)) && d.MD5 == cf.hash {
 				nd++
 			}
 		}
